@@ -61,13 +61,24 @@ def search_witness(prop, unit, fnpath, failure):
         return None
     if not build():
         return {"found": False, "error": "replay crate did not build: " + _built["log"][-500:]}
-    gen = generator_of(unit)
-    d = _run([gen, "search"])
-    if d is None:
-        return {"found": False, "error": "witness generator produced no result"}
-    d["kind"] = "bounded search on the real crate (not the deciding step)"
-    d["replay_args"] = [gen, "run", d.get("input", "")]
-    return d
+    return run_generator(generator_of(unit))
+
+
+_cache = {}
+
+
+def run_generator(gen):
+    """run one bounded generator of the replay crate (memoised per process)"""
+    if gen in _cache:
+        return _cache[gen]
+    if not build():
+        r = {"found": False, "error": "replay crate did not build: " + _built["log"][-500:]}
+    else:
+        r = _run([gen, "search"]) or {"found": False, "error": "generator produced no result"}
+        r["kind"] = "bounded search on the real crate (not the deciding step)"
+        r["replay_args"] = [gen, "run", r.get("input", "")]
+    _cache[gen] = r
+    return r
 
 
 def replay_file(path):
